@@ -21,6 +21,28 @@ def chunked(xs, n):
     return [xs[i:i + n] for i in range(0, len(xs), n)]
 
 
+def safe_run(ctx, key, cases, timeout=1200):
+    """Run one family of cases; if the interpreter dies (segfault in an extension, time-out),
+    bisect to a single crashing case, report it with that input and return None."""
+    from harness.core import DriverError
+    import subprocess
+    try:
+        return ctx.impl.run(DRIVER, {key: cases}, timeout=timeout)[key]
+    except (DriverError, subprocess.TimeoutExpired) as e:
+        msg = str(e)[-300:]
+    lo = cases
+    while len(lo) > 1:
+        half = lo[:len(lo) // 2]
+        try:
+            ctx.impl.run(DRIVER, {key: half}, timeout=timeout)
+            lo = lo[len(lo) // 2:]
+        except (DriverError, subprocess.TimeoutExpired):
+            lo = half
+    ctx.report('impl:%s:crash' % key, 'the interpreter died / did not finish on this input: %s' % msg,
+               {'mode': key, 'case': lo[0], 'how': 'harness/impl/c18_driver.py with payload {%r: [case]}' % key})
+    return None
+
+
 def coq_run(ctx, prefix, check, items, what, per=200):
     """items: list of (coq text, replay, signature, bad).  Reports disagreements."""
     chunks = chunked(items, per)
@@ -62,7 +84,9 @@ def run_index_cases(ctx, n):
         shape = [rng.choice([0, 1, 2, 3, 4, 5, 7]) if rng.random() < 0.1 else rng.choice([1, 2, 3, 4, 5, 7])
                  for _ in range(rng.choice([1, 2, 3, 4]))]
         cases.append({'shape': shape, 'I': G.gen_index(rng, shape, malformed=(i % 4 == 3))})
-    res = ctx.impl.run(DRIVER, {'idx': cases})['idx']
+    res = safe_run(ctx, 'idx', cases)
+    if res is None:
+        return
     items = []
     dist = {}
     for c, r in zip(cases, res):
@@ -117,7 +141,9 @@ def run_generator_cases(ctx, n):
             a0, a1 = rng.sample(range(len(shape)), 2)
             o = {'k': 'matrix_at', 'I': [rng.randrange(m) for m in shape], 'axes': [a0, a1]}
         cases.append({'X': X, 'o': o, 'multi': rng.random() < 0.3})
-    res = ctx.impl.run(DRIVER, {'gen': cases})['gen']
+    res = safe_run(ctx, 'gen', cases)
+    if res is None:
+        return
     items = []
     dist = {}
     for c, r in zip(cases, res):
@@ -229,7 +255,9 @@ def run_canop_cases(ctx, n):
             c['X'] = G.gen_tensor(rng, mid)
             c['o']['matmul'] = rng.random() < 0.5
         cases.append(c)
-    res = ctx.impl.run(DRIVER, {'cop': cases})['cop']
+    res = safe_run(ctx, 'cop', cases)
+    if res is None:
+        return
     items_cop, items_app = [], []
     dist = {}
     for c, r in zip(cases, res):
@@ -320,7 +348,9 @@ def run_update_cases(ctx, n):
             cases.append({'k': 'r3', 'X': G.rint_full(rng, sh, -9, 9), 'alpha': float(rng.randint(-4, 4)),
                           'u': [float(rng.randint(-5, 5)) for _ in range(sh[0])],
                           'V': G.rint_mat(rng, sh[1], sh[2], -5, 5)})
-    res = ctx.impl.run(DRIVER, {'upd': cases})['upd']
+    res = safe_run(ctx, 'upd', cases)
+    if res is None:
+        return
     it1, it3 = [], []
     for c, r in zip(cases, res):
         ctx.count(('upd', repr(c)), nontrivial=True)
@@ -397,6 +427,28 @@ def lowrank_tensor(rng, shape, r):
     return A
 
 
+def generic_lowrank(rng, shape, r):
+    """Exact-rank-r array with generic dyadic factors (entries +-k/64 in [1,2]): no residual entry
+    vanishes before the rank is exhausted, so the random restarts of the cross approximations (which
+    may legitimately stop early) are not exercised; well conditioned: sigma_r / sigma_1 >= 1e-3 of
+    every matricization is enforced by rejection."""
+    while True:
+        A = np.zeros(shape)
+        for _ in range(r):
+            t = np.array(1.0)
+            for n_ in shape:
+                v = np.array([rng.choice([-1.0, 1.0]) * rng.randint(64, 128) / 64.0 for _ in range(n_)])
+                t = np.multiply.outer(t, v)
+            A = A + t
+        ok = True
+        for k in range(len(shape)):
+            sv = np.linalg.svd(np.moveaxis(A, k, 0).reshape(shape[k], -1), compute_uv=False)
+            if len(sv) < r or sv[r - 1] < 1e-3 * sv[0]:
+                ok = False
+        if ok:
+            return A
+
+
 def full_spec(A):
     return {'t': 'full', 'sh': list(A.shape), 'd': A.ravel().tolist()}
 
@@ -458,13 +510,16 @@ def run_numeric(ctx, thorough):
         cases.append({'k': 'trunc_rank', 'X': dict(X, t='full'), 'tol': math.sqrt(m + 0.5), 'm': m})
     for _ in range(10 * rep):
         r_ = rng.randint(1, 4)
-        A = lowrank_tensor(rng, [rng.randint(4, 12), rng.randint(4, 12)], r_)
+        A = generic_lowrank(rng, [rng.randint(5, 12), rng.randint(5, 12)], r_)
         for kind in ('aca', 'aca_lr'):
             cases.append({'k': kind, 'X': full_spec(A), 'tol': 1e-11, 'maxiter': 50, 'r': r_, 'npseed': seed(),
                           'gen': rng.random() < 0.5})
-    for _ in range(5 * rep):
+    for q in range(6 * rep):
         r_ = rng.randint(1, 3)
-        A = lowrank_tensor(rng, [rng.randint(3, 6) for _ in range(3)], r_)
+        shp3 = [rng.randint(4, 6) for _ in range(3)]
+        if q % 2 == 0:
+            shp3 = [rng.randint(4, 6), 4, 7]      # non-cubic: last axis longer than the middle one
+        A = generic_lowrank(rng, shp3, r_)
         cases.append({'k': 'aca3d', 'X': full_spec(A), 'tol': 1e-11, 'maxiter': 30, 'r': r_, 'npseed': seed(),
                       'lr': rng.random() < 0.5})
     for _ in range(6 * rep):
@@ -479,13 +534,12 @@ def run_numeric(ctx, thorough):
         cases.append({'k': 'grou', 'A': full_spec(A), 'R': rng.randint(1, r_ + 1), 'tol': max(t, 1e-10 * nrm), 'npseed': seed()})
         cases.append({'k': 'gta', 'A': full_spec(A), 'R': rng.randint(1, r_ + 1), 'tol': max(t, 1e-10 * nrm),
                       'rtol': max(rng.choice(decades), 1e-10), 'npseed': seed()})
-    try:
-        res = []
-        for ch in chunked(cases, 60):
-            res += ctx.impl.run(DRIVER, {'num': ch}, timeout=900)['num']
-    except Exception as e:  # noqa
-        ctx.broken.append('approximation runs did not finish: %s' % str(e)[-300:])
-        return
+    res = []
+    for ch in chunked(cases, 60):
+        r_ = safe_run(ctx, 'num', ch, timeout=900)
+        if r_ is None:
+            return
+        res += r_
     dist = {}
     maxdev = {}
     for c, r in zip(cases, res):
